@@ -294,6 +294,8 @@ func (l *vLoop) checkNotDestroyed(tag0 string) {
 			zz.Assert(zz.Or(has, superseded), "C03/"+tag+"/shadow/live-empty-value")
 		} else {
 			zz.Assert(zz.Or(zz.And(has, bytes.Equal(cur, w.val)), superseded), "C03/"+tag+"/shadow/write-kept-unless-superseded")
+			// the same fact seen from the mirror: the change was captured and projected back
+			zz.Assert(zz.Or(zz.And(has, bytes.Equal(cur, w.val)), superseded), "C11/"+tag+"/change-captured-and-projected")
 		}
 	}
 }
